@@ -221,6 +221,8 @@ def run(rep):
     rep.floor("PROV-KEY", 20)
     import core
     core.import_rules(rep, "c01", {"PASS-ARMS"})
+    # the reading primitive itself: a lookup that falls back to the root or to a shorter path reads a field the rule did not name there
+    core.import_rules(rep, "c10", {"T-FIND", "STEP-TOTAL", "INDEX", "NO-OVERRIDE"})
     rep.floor("PROV-DOC", 24)
     rep.floor("PROV-MATRIX", 4)
     rep.floor("PROV-CACHE", 6)
